@@ -63,6 +63,7 @@ def runTrie (color : Bool) : Trie := if color then whiteTrie else blackTrie
 inductive Err where
   | invalidData          -- CCITTG4Parser.InvalidData
   | valueError           -- PDFValueError (K ≠ -1)
+  | notImplemented       -- PDFNotImplementedError (PDFStream._decode: unsupported filter)
   | unmodelled           -- degenerate width / unreachable branch: outside this model
   deriving DecidableEq, Repr
 
